@@ -356,6 +356,15 @@ def run(ctx):
         ("my_filter", False, ("my_filter", ("my_filter",))),
         ("My Filter", False, ("My Filter", ("My Filter",))),
         ("hint", True, ("hint", ("hint",))),
+        # the legacy single-colon spelling of namespaced bind / control attributes, with and without blanks around the colons
+        ("bind:jr:constraintMsg", False, ("bind", ("bind", "jr:constraintMsg"))),
+        ("bind : jr:constraintMsg", False, ("bind", ("bind", "jr:constraintMsg"))),
+        ("bind: jr:requiredMsg", False, ("bind", ("bind", "jr:requiredMsg"))),
+        ("bind :jr: requiredMsg", False, ("bind", ("bind", "jr:requiredMsg"))),
+        ("control:jr:count", False, ("control", ("control", "jr:count"))),
+        ("bind:jr:constraintMsg:fr", False, ("bind", ("bind", "jr:constraintMsg", "fr"))),
+        ("bind::jr:constraintMsg", True, ("bind", ("bind", "jr:constraintMsg"))),
+        ("bind :: jr:constraintMsg :: fr", True, ("bind", ("bind", "jr:constraintMsg", "fr"))),
     ]
     for header, dbl, want in cases:
         it.reset([])
